@@ -127,15 +127,16 @@ def generateShares (s : St O) (seed : Bytes) : St O × List Out × Res :=
        outs ++ [Out.bcast (tagVerifVec :: O.vecBytes a)], .ok)
 
 /-- `feldmanVSSstate.Start` (shared by the three protocols) -/
+def startBody (s : St O) (seed : Bytes) : St O × List Out × Res :=
+  let s := { s with running := true }
+  if s.dealer = s.me then
+    match generateShares s seed with
+    | (s', outs, .ok) => (s', outs, .ok)
+    | (s', outs, r) => ({ s' with running := false }, outs, r)
+  else (s, [], .ok)
+
 def start (s : St O) (seed : Bytes) : St O × List Out × Res :=
-  if s.running then (s, [], .invalidTransition)
-  else
-    let s := { s with running := true }
-    if s.dealer = s.me then
-      match generateShares s seed with
-      | (s', outs, .ok) => (s', outs, .ok)
-      | (s', outs, r) => ({ s' with running := false }, outs, r)
-    else (s, [], .ok)
+  if s.running then (s, [], .invalidTransition) else startBody s seed
 
 /-! ### plain Feldman VSS -/
 
@@ -168,38 +169,43 @@ def receiveVerifVector (s : St O) (origin : Nat) (data : Bytes) : St O × List O
       let s := { s with vA := some v, vAReceived := true }
       if s.xReceived then ({ s with validKey := s.verifyShare }, []) else (s, [])
 
+def bcastBody (s : St O) (o : Nat) (msg : Bytes) : St O × List Out :=
+  if s.me = o then (s, [])
+  else if msg.length = 0 then (s, [.disq o])
+  else if msg.headD 0 = tagVerifVec then receiveVerifVector s o (msg.drop 1)
+  else (s, [.disq o])
+
 def handleBroadcast (s : St O) (orig : Int) (msg : Bytes) : St O × List Out × Res :=
   if !s.running then (s, [], .invalidTransition)
   else if badIndex s.size orig then (s, [], .invalidInputs)
-  else if s.me = orig.toNat then (s, [], .ok)
-  else if msg.length = 0 then (s, [.disq orig.toNat], .ok)
-  else if msg.headD 0 = tagVerifVec then
-    let (s', o) := receiveVerifVector s orig.toNat (msg.drop 1); (s', o, .ok)
-  else (s, [.disq orig.toNat], .ok)
+  else ((bcastBody s orig.toNat msg).1, (bcastBody s orig.toNat msg).2, .ok)
+
+def privBody (s : St O) (o : Nat) (msg : Bytes) : St O × List Out :=
+  if s.me = o then (s, []) else receiveShare s o msg
 
 def handlePrivate (s : St O) (orig : Int) (msg : Bytes) : St O × List Out × Res :=
   if !s.running then (s, [], .invalidTransition)
   else if badIndex s.size orig then (s, [], .invalidInputs)
-  else if s.me = orig.toNat then (s, [], .ok)
-  else let (s', o) := receiveShare s orig.toNat msg; (s', o, .ok)
+  else ((privBody s orig.toNat msg).1, (privBody s orig.toNat msg).2, .ok)
 
 def forceDisqualify (s : St O) (p : Int) : St O × List Out × Res :=
   if !s.running then (s, [], .invalidTransition)
   else if badIndex s.size p then (s, [], .invalidInputs)
-  else if p.toNat = s.dealer then ({ s with validKey := false }, [], .ok)
-  else (s, [], .ok)
+  else ((if p.toNat = s.dealer then { s with validKey := false } else s), [], .ok)
+
+/-- result of an accepted `End`: failure or keys -/
+def endBody (s : St O) : Res :=
+  if !s.validKey then .failure
+  else match s.vA with
+    | none => .failure       -- unreachable: validKey implies a valid vector
+    | some v =>
+      if s.x = 0 then .failure
+      else if O.groupKeyIsIdentity v then .failure
+      else .keys s.x (O.groupKey v) (O.pubShares v)
 
 def end_ (s : St O) : St O × List Out × Res :=
   if !s.running then (s, [], .invalidTransition)
-  else
-    let s := { s with running := false }
-    if !s.validKey then (s, [], .failure)
-    else match s.vA with
-      | none => (s, [], .failure)       -- unreachable: validKey implies a valid vector
-      | some v =>
-        if s.x = 0 then (s, [], .failure)
-        else if O.groupKeyIsIdentity v then (s, [], .failure)
-        else (s, [], .keys s.x (O.groupKey v) (O.pubShares v))
+  else ({ s with running := false }, [], endBody s)
 
 end Fvss
 
@@ -326,52 +332,62 @@ def receiveComplaintAnswer (s : St O) (origin : Nat) (data : Bytes) : St O × Li
               (s, o)
           else (s, [])
 
-def handleBroadcast (s : St O) (orig : Int) (msg : Bytes) : St O × List Out × Res :=
-  if !s.running then (s, [], .invalidTransition)
-  else if badIndex s.size orig then (s, [], .invalidInputs)
-  else if s.me = orig.toNat then (s, [], .ok)
-  else if s.disqualified then (s, [], .ok)
+def bcastBody (s : St O) (o : Nat) (msg : Bytes) : St O × List Out :=
+  if s.me = o then (s, [])
+  else if s.disqualified then (s, [])
   else
-    let o := orig.toNat
-    let badMsg : St O × List Out × Res :=
-      ((if o = s.dealer then { s with disqualified := true } else s), [.disq o], .ok)
+    let badMsg : St O × List Out := ((if o = s.dealer then { s with disqualified := true } else s), [.disq o])
     if msg.length = 0 then badMsg
     else
       let tag := msg.headD 0
-      if tag = tagVerifVec then let (s', out) := receiveVerifVector s o (msg.drop 1); (s', out, .ok)
-      else if tag = tagComplaint then let (s', out) := receiveComplaint s o (msg.drop 1); (s', out, .ok)
-      else if tag = tagAnswer then let (s', out) := receiveComplaintAnswer s o (msg.drop 1); (s', out, .ok)
+      if tag = tagVerifVec then receiveVerifVector s o (msg.drop 1)
+      else if tag = tagComplaint then receiveComplaint s o (msg.drop 1)
+      else if tag = tagAnswer then receiveComplaintAnswer s o (msg.drop 1)
       else badMsg
+
+def handleBroadcast (s : St O) (orig : Int) (msg : Bytes) : St O × List Out × Res :=
+  if !s.running then (s, [], .invalidTransition)
+  else if badIndex s.size orig then (s, [], .invalidInputs)
+  else ((bcastBody s orig.toNat msg).1, (bcastBody s orig.toNat msg).2, .ok)
+
+def privBody (s : St O) (o : Nat) (msg : Bytes) : St O × List Out :=
+  if s.me = o then (s, [])
+  else if s.disqualified then (s, [])
+  else receiveShare s o msg
 
 def handlePrivate (s : St O) (orig : Int) (msg : Bytes) : St O × List Out × Res :=
   if !s.running then (s, [], .invalidTransition)
   else if badIndex s.size orig then (s, [], .invalidInputs)
-  else if s.me = orig.toNat then (s, [], .ok)
-  else if s.disqualified then (s, [], .ok)
-  else let (s', o) := receiveShare s orig.toNat msg; (s', o, .ok)
+  else ((privBody s orig.toNat msg).1, (privBody s orig.toNat msg).2, .ok)
 
 def forceDisqualify (s : St O) (p : Int) : St O × List Out × Res :=
   if !s.running then (s, [], .invalidTransition)
   else if badIndex s.size p then (s, [], .invalidInputs)
-  else if p.toNat = s.dealer then ({ s with disqualified := true }, [], .ok)
-  else (s, [], .ok)
+  else ((if p.toNat = s.dealer then { s with disqualified := true } else s), [], .ok)
+
+/-- `setSharesTimeout` -/
+def setSharesTimeout (s : St O) : St O × List Out :=
+  let s := { s with sharesTimeout := true }
+  if !s.vAReceived then ({ s with disqualified := true }, [.disq s.dealer])
+  else if !s.xReceived then buildComplaint s
+  else (s, [])
+
+/-- `setComplaintsTimeout` -/
+def setComplaintsTimeout (s : St O) : St O × List Out :=
+  let s := { s with complaintsTimeout := true }
+  if s.complaints.length > s.threshold then ({ s with disqualified := true }, [.disq s.dealer])
+  else (s, [])
+
+def timeoutBody (s : St O) : St O × List Out :=
+  if s.disqualified then
+    (if !s.sharesTimeout then { s with sharesTimeout := true } else { s with complaintsTimeout := true }, [])
+  else if !s.sharesTimeout then setSharesTimeout s
+  else setComplaintsTimeout s
 
 def nextTimeout (s : St O) : St O × List Out × Res :=
   if !s.running then (s, [], .invalidTransition)
   else if s.complaintsTimeout then (s, [], .invalidTransition)
-  else if s.disqualified then
-    (if !s.sharesTimeout then { s with sharesTimeout := true } else { s with complaintsTimeout := true }, [], .ok)
-  else if !s.sharesTimeout then
-    -- setSharesTimeout
-    let s := { s with sharesTimeout := true }
-    if !s.vAReceived then ({ s with disqualified := true }, [.disq s.dealer], .ok)
-    else if !s.xReceived then let (s', o) := buildComplaint s; (s', o, .ok)
-    else (s, [], .ok)
-  else
-    -- setComplaintsTimeout
-    let s := { s with complaintsTimeout := true }
-    if s.complaints.length > s.threshold then ({ s with disqualified := true }, [.disq s.dealer], .ok)
-    else (s, [], .ok)
+  else ((timeoutBody s).1, (timeoutBody s).2, .ok)
 
 /-- the part of `End` that settles the verdict of one instance: an unanswered complaint disqualifies -/
 def settle (s : St O) : St O × List Out :=
@@ -379,19 +395,22 @@ def settle (s : St O) : St O × List Out :=
     ({ s with disqualified := true }, [.disq s.dealer])
   else (s, [])
 
+/-- accepted `End`: the instance stops, the verdict is settled, failure or keys -/
+def endBody (s : St O) : St O × List Out × Res :=
+  let s := { s with running := false }
+  let (s, o) := settle s
+  if s.disqualified then (s, o, .failure)
+  else match s.vA with
+    | none => ({ s with disqualified := true }, o, .failure)    -- unreachable
+    | some v =>
+      if s.x = 0 then ({ s with disqualified := true }, o, .failure)
+      else if O.groupKeyIsIdentity v then ({ s with disqualified := true }, o, .failure)
+      else (s, o, .keys s.x (O.groupKey v) (O.pubShares v))
+
 def end_ (s : St O) : St O × List Out × Res :=
   if !s.running then (s, [], .invalidTransition)
   else if !s.sharesTimeout ∨ !s.complaintsTimeout then (s, [], .invalidTransition)
-  else
-    let s := { s with running := false }
-    let (s, o) := settle s
-    if s.disqualified then (s, o, .failure)
-    else match s.vA with
-      | none => ({ s with disqualified := true }, o, .failure)    -- unreachable
-      | some v =>
-        if s.x = 0 then ({ s with disqualified := true }, o, .failure)
-        else if O.groupKeyIsIdentity v then ({ s with disqualified := true }, o, .failure)
-        else (s, o, .keys s.x (O.groupKey v) (O.pubShares v))
+  else endBody s
 
 end FvssQ
 
